@@ -66,7 +66,7 @@ def cases(tier, seed):
         if layout in cc.STACKED:
             nan = nan.replace("s", "") or "none"  # that combination has its own dedicated cases below
         container = [cc.CONTAINERS[i % 5], cc.CONTAINERS[(i // 5 + 2) % 5], cc.CONTAINERS[(i + 3) % 5]]
-        cplx = None if cfg["cls"] not in zoo.COMPLEX_INPUT_OK else bool(i % 4 != 1)
+        cplx = None if cfg["cls"] not in zoo.COMPLEX_INPUT_OK else bool(i % 5 != 3)  # i=1 (ComplexEOF) gets complex input
         wide = bool(i % 3 == 0)
         out.append(cc.draw_case(cfg, rng, container=container, layout=layout, nan=nan, cplx=cplx, wide=wide))
     cells = {c["cell"]: c for c in cc.CONFIGS}
